@@ -150,14 +150,22 @@ def match_known(mod, pid, case, impl_res, model_res, failure, known):
 def evaluate(mod, cases, timeout_s, nproc):
     """impl -> oracle -> judge for a list of cases. Returns list of (case, impl_res, model_res, failure)."""
     t0 = time.time()
+    # the watchdog limit exists to detect non-termination, not slowness: on a loaded machine (other checks, solver
+    # threads) it is stretched in proportion to the load, so that a slow run of the unchanged code is never an alarm
+    try:
+        load = os.getloadavg()[0] / max(1, os.cpu_count() or 1)
+    except OSError:
+        load = 1.0
+    timeout_s = timeout_s * min(6.0, max(1.0, load))
     impl_res = implrun.run_chunked(mod.impl, cases, timeout_s=timeout_s, nproc=nproc,
                                    chunk=getattr(mod, "CHUNK", 40))
     # a watchdog timeout or a dead worker is re-tried once, alone, with a doubled limit: non-termination of the
     # implementation is deterministic and survives the retry, a transient stall (solver library, machine load) does not
     retry = [k for k, r in enumerate(impl_res)
              if isinstance(r, dict) and ("timeout" in r or str(r.get("crash", "")).startswith("worker died"))]
-    if retry and len(retry) <= 3:
-        again = implrun.run(mod.impl, [cases[k] for k in retry], timeout_s=2 * timeout_s, nproc=min(4, nproc))
+    if retry and len(retry) <= 12:
+        again = implrun.run(mod.impl, [cases[k] for k in retry], timeout_s=3 * timeout_s, nproc=min(4, nproc),
+                            max_timeouts=3)
         for k, r in zip(retry, again):
             impl_res[k] = r
     t1 = time.time()
